@@ -51,7 +51,8 @@ EXCLUSIONS = {
                                 'is representable in the destination [finding operand-value-after-implicit-conversion]',
     'single-alias': 'at most one alias pointer per variable [finding two-aliases-stale-value]',
     'ternary-one-const-arm': 'the arms of ?: are both constant or both non-constant [finding ternary-partial-possible]',
-    'break-cond-nonconst': 'a break is never guarded by a constant condition [finding break-in-do-while-escapes-if]',
+    'break-cond-nonconst': 'a break is never guarded by a constant condition, and loops with a break are generated at the '
+                           'top level of a function only [finding break-in-do-while-escapes-if]',
     'alias-self-read': 'the value stored through an alias pointer never reads the aliased variable [finding alias-ternary]',
 }
 
@@ -751,7 +752,9 @@ class Gen:
             e2 = env.child()
             e2.add('roscalar', cv, 'int')
             self.block(e2, out, indent + 1, r.randint(1, 2), loopdepth + 1, fn_ret)
-            if r.random() < 0.3:
+            # exclusion break-only-in-top-level-loops (calibrated): a break whose condition cppcheck can
+            # decide makes it treat the enclosing if/else block as escaping
+            if r.random() < 0.3 and (not self.cal or indent == 1):
                 self.feat('break')
                 bc = self.cond(e2)
                 if self.cal and bc.const:
